@@ -12,6 +12,7 @@
 From Coq Require Import List ZArith QArith.
 From Coq Require Import Ring InitialRing.
 From Yv Require Import Mps.Canon Mps.CanonLaws.
+From Yv Require Base.Deleg Gen.DelegGen.
 From Yv Require Mps.Gauge.
 Import ListNotations.
 
@@ -77,6 +78,11 @@ Example C08_gauge_nonvacuous :
   Gauge.prop Z 0%Z Z.add Z.mul 1 (fun k => if Nat.eqb k 0 then 1%Z else 0%Z) [sA; sB] [1%nat; 0%nat] 0%nat = 27%Z.
 Proof. split; [intros s i j; reflexivity | vm_compute; reflexivity]. Qed.
 
+(* --- options are handed down under their own names (facts regenerated from the source on every run by tools/translate/tr_deleg.py): canonize_ / truncate_ pass to and normalize on to orthogonalize_site_ / diagonalize_central_ / absorb_central_ under their own names --- *)
+Theorem C08_options_forwarded :
+  Deleg.deleg_ok Deleg.pre_mps_obc DelegGen.delegations DelegGen.allowed = true /\ Nat.ltb 0 (Deleg.n_facts Deleg.pre_mps_obc DelegGen.delegations) = true.
+Proof. split; vm_compute; reflexivity. Qed.
+
 Print Assumptions C08_never_stuck.
 Print Assumptions C08_move_right.
 Print Assumptions C08_move_left.
@@ -87,3 +93,4 @@ Print Assumptions C08_flags_to_last.
 Print Assumptions C08_discard_compose.
 Print Assumptions C08_discard_range.
 Print Assumptions C08_discard_zero.
+Print Assumptions C08_options_forwarded.
